@@ -10,6 +10,7 @@ import (
 	"os"
 	"strings"
 
+	"gsim/ref"
 	"gsim/world"
 )
 
@@ -98,6 +99,8 @@ func Trigger(name string, w *world.World) bool {
 			}
 			return false
 		})
+	case "bf-unique-gt4-nonpositive": // an exactly-one group of more than 4 names under a negation, an equivalence or on the left of an implication
+		return anyTask(w, func(t *world.TaskSpec) bool { return t.Formula != nil && bigUniqueNonPositive(t.Formula, true, false) })
 	case "musmaxsat": // the MaxSat-based MUS extraction method
 		return anyTask(w, func(t *world.TaskSpec) bool { return t.Kind == "mus" && t.Entry == "MUSMaxSat" })
 	case "cp-nonclausal": // cutting planes switched on for a problem that has (or gets) a non-clausal constraint
@@ -133,6 +136,27 @@ func Trigger(name string, w *world.World) bool {
 			}
 			return false
 		})
+	}
+	return false
+}
+
+// bigUniqueNonPositive walks a formula tracking polarity.
+func bigUniqueNonPositive(f *ref.BF, pos, both bool) bool {
+	switch f.Op {
+	case "unique":
+		return len(f.Names) > 4 && (!pos || both)
+	case "not":
+		return bigUniqueNonPositive(f.Subs[0], !pos, both)
+	case "implies":
+		return bigUniqueNonPositive(f.Subs[0], !pos, both) || bigUniqueNonPositive(f.Subs[1], pos, both)
+	case "eq":
+		return bigUniqueNonPositive(f.Subs[0], pos, true) || bigUniqueNonPositive(f.Subs[1], pos, true)
+	default:
+		for _, s := range f.Subs {
+			if bigUniqueNonPositive(s, pos, both) {
+				return true
+			}
+		}
 	}
 	return false
 }
